@@ -166,6 +166,14 @@ func c13BinaryParsers(in []byte) (fs []verifFinding, accepted int) {
 			accepted++
 		}
 	})
+	pub := verifKey(1, "A").PublicKey() // generated once, outside the measured call
+	run("DSAPublicKey.Verify", func() {
+		// a signature of any length (as it arrives in a Signature / Reveal Signature message) is refused, not indexed
+		h := make([]byte, 32)
+		pub.Verify(h, cp())
+		pub.Verify(h, append(make([]byte, 17), in...))
+		pub.Verify(h, append(make([]byte, 39), in...))
+	})
 	run("ExtractInstanceTags", func() {
 		ExtractInstanceTags(cp())
 		ExtractInstanceTags(append([]byte("?OTR:"), append([]byte(base64.StdEncoding.EncodeToString(in)), '.')...))
